@@ -1,10 +1,12 @@
 package main
 
 import (
+	"context"
 	"encoding/json"
 	"flag"
 	"fmt"
 	"os"
+	"os/exec"
 	"path/filepath"
 	"sort"
 	"strings"
@@ -128,10 +130,98 @@ func (cr *checkRun) generate() {
 }
 
 func (cr *checkRun) solveAll() {
+	// texts must be produced sequentially (term pool is not concurrent)
+	var todo []*Obligation
+	for _, o := range cr.obls {
+		if o.Res != nil {
+			continue
+		}
+		finalizeQuery(o.Q)
+		todo = append(todo, o)
+	}
+	// stage 1: many queries per solver process, separated by (reset). A query with quantified
+	// assumptions is first tried on its quantifier-free relaxation (sound for unsat).
+	type first struct {
+		o     *Obligation
+		text  string
+		relax bool
+	}
+	var firsts []first
+	for _, o := range todo {
+		memo := map[*Term]bool{}
+		var qf []*Term
+		nq := 0
+		for _, a := range o.Q.Assumes {
+			if hasQuant(a, memo) {
+				nq++
+			} else {
+				qf = append(qf, a)
+			}
+		}
+		q := o.Q
+		relax := false
+		if nq > 0 && !hasQuant(o.Q.Goal, memo) {
+			q = &Query{Assumes: qf, Goal: o.Q.Goal}
+			relax = true
+		}
+		text, ok := q.smtText(false, "")
+		if !ok {
+			continue
+		}
+		firsts = append(firsts, first{o, text, relax})
+	}
+	const batch = 24
 	var wg sync.WaitGroup
+	sem := make(chan struct{}, 16)
+	for i := 0; i < len(firsts); i += batch {
+		j := i + batch
+		if j > len(firsts) {
+			j = len(firsts)
+		}
+		chunk := firsts[i:j]
+		wg.Add(1)
+		go func(n int, chunk []first) {
+			defer wg.Done()
+			sem <- struct{}{}
+			defer func() { <-sem }()
+			var sb strings.Builder
+			for _, f := range chunk {
+				sb.WriteString(f.text)
+				sb.WriteString("(reset)\n")
+			}
+			t0 := time.Now()
+			file := fmt.Sprintf("%s/batch%d.smt2", cr.smtDir, n)
+			os.WriteFile(file, []byte(sb.String()), 0644)
+			ctx, cancel := context.WithTimeout(context.Background(), time.Duration(len(chunk)*3000+5000)*time.Millisecond)
+			out, _ := exec.CommandContext(ctx, "z3-new", "-t:2500", file).Output()
+			cancel()
+			os.Remove(file)
+			ms := time.Since(t0).Milliseconds() / int64(len(chunk))
+			var answers []string
+			for _, l := range strings.Split(string(out), "\n") {
+				l = strings.TrimSpace(l)
+				if l == "sat" || l == "unsat" || l == "unknown" || l == "timeout" {
+					answers = append(answers, l)
+				}
+			}
+			if len(answers) != len(chunk) {
+				return // fall back to one-by-one
+			}
+			for k, f := range chunk {
+				if answers[k] == "unsat" {
+					name := "z3-new"
+					if f.relax {
+						name = "z3-new(qf)"
+					}
+					f.o.Res = &SolveResult{Status: "unsat", Solver: name, Ms: ms, Tried: []string{name + ":unsat(batch)"}, SMTText: f.text}
+				}
+			}
+		}(i/batch, chunk)
+	}
+	wg.Wait()
+	// stage 2: everything not yet proved goes through the full portfolio, one process per query
 	ch := make(chan *Obligation)
-	workers := 16
-	for w := 0; w < workers; w++ {
+	for w := 0; w < 16; w++ {
 		wg.Add(1)
 		go func(w int) {
 			defer wg.Done()
@@ -141,18 +231,10 @@ func (cr *checkRun) solveAll() {
 			}
 		}(w)
 	}
-	// texts must be produced sequentially (term pool is not concurrent): pre-render
-	for _, o := range cr.obls {
-		if o.Res != nil {
-			continue
+	for _, o := range todo {
+		if o.Res == nil {
+			ch <- o
 		}
-		finalizeQuery(o.Q)
-	}
-	for _, o := range cr.obls {
-		if o.Res != nil {
-			continue
-		}
-		ch <- o
 	}
 	close(ch)
 	wg.Wait()
